@@ -140,13 +140,6 @@ Definition spec_C05 (i ob : term) : bool :=
   | _ => String.eqb (gs (gn ob 0)) "err"
   end.
 
-(* class 40 = F40: the report's path clean-up (trimPath, applied on every graph build) does not
-   reach a fixed point after one application on some file name of the profile *)
-Definition cls_C05 (i : term) : list Z :=
-  let '(o, (si, pr)) := c04_prepare i in
-  match si with
-  | SiOk _ => if paths_stable o pr then [] else [40]
-  | _ => []
-  end.
+Definition cls_C05 (i : term) : list Z := [].
 
 Definition judge_C05 := judge_all run_C05 eqv_C05 spec_C05 cls_C05 0%Z.
